@@ -7,7 +7,8 @@ Inductive tcase :=
 | TEval (rp : pspec version) (impl : option (N * bool)) (timpl : str) (major : N) (minor : option N) (abi : str) (r : option (N * N * N))
 | TWheel (fn : str) (r : pyres (list str * list str * list str))
 | TAbiImpl (abi : str) (r : str)
-| TPyTag (timpl : str) (major : N) (minor : option N) (r : str).
+| TPyTag (timpl : str) (major : N) (minor : option N) (r : str)
+| TCompare (rpA : pspec version) (pA : option platform) (iA : option (N * bool)) (rpB : pspec version) (pB : option platform) (iB : option (N * bool)) (r : N).
 
 Definition impl_of (x : N * bool) : implementation :=
   mkImpl (match fst x with 0%N => Cpython | 1%N => Pypy | _ => Pyston end) (snd x).
@@ -38,6 +39,13 @@ Definition check_tcase (c : tcase) : bool :=
       end
   | TAbiImpl abi r => str_eqb (abi_impl_of abi) r
   | TPyTag timpl major minor r => str_eqb (pytag_str (mkPyTag timpl major minor)) r
+  | TCompare rpA pA iA rpB pB iB r =>
+      match compare (mkEnv rpA pA (option_map impl_of iA)) (mkEnv rpB pB (option_map impl_of iB)) with
+      | Ret INCOMPATIBLE => N.eqb r 1
+      | Ret LOWER_OR_EQUAL => N.eqb r 2
+      | Ret HIGHER => N.eqb r 3
+      | _ => false
+      end
   end.
 
 Fixpoint tmismatches (i : N) (l : list tcase) : list N :=
